@@ -2,6 +2,6 @@ SPECIFICATION Spec
 CONSTANTS Tier = "thorough"
           Styles = {"plain", "dot", "updown"}
           Allows = {TRUE}
-          LoaderVisitsAll = TRUE
-INVARIANTS L2vsL1 StrictOnClean ReproducesConflation ReproducesPureCycle
+          LoaderVisitsAll = FALSE
+INVARIANTS VisitsEverything
 CHECK_DEADLOCK FALSE
